@@ -23,6 +23,11 @@ for d in sorted(glob.glob(os.path.join(ROOT, 'seeded', '*'))):
     if name.startswith('revert-'):
         meta['origin'] = 'reverse patch of a fix: commit of /repo (the pinned tree behaviour); written by me'
         meta['confirmed'] = 'the existing suite passed on the pinned tree by construction (132/133, the always-failing intersection::lt_123 aside)'
+    elif name.startswith('mine-'):
+        meta['origin'] = 'written by me to exercise a part of the machinery (see description)'
+        meta['breaks_property'] = name.split('-')[1]
+        if os.path.exists(os.path.join(d, 'meta.txt')):
+            meta['description'] = open(os.path.join(d, 'meta.txt')).read()
     else:
         meta['origin'] = 'written by an independent sub-agent that saw only the property text and a scratch worktree of /repo'
         meta['breaks_property'] = name.split('-')[0]
